@@ -23,11 +23,46 @@ def run(ctx):
     ctx.rule("C16.R3", "K3+K8", "Application.load_config applies the sources in increasing authority (framework < file < GUNICORN_CMD_ARGS < command line); env/CLI loops skip None; config-file location precedence CLI > env > default")
     ctx.rule("C16.R4", "K2", "an exception raised by cfg.set(..) reaches do_load_config, which exits non-zero: no handler on the way returns normally")
     ctx.rule("C16.R5", "K1", "validators never silently replace a rejected value: every except clause in a validate_* function raises")
+    ctx.rule("C16.R6", "K1", "Config properties that shadow a setting yield the stored value when a source set one")
     r1(ctx)
     r2(ctx)
     r3(ctx)
     r4(ctx)
     r5(ctx)
+    r6(ctx)
+
+
+def r6(ctx):
+    """Config properties that shadow a setting: when the setting holds a value, the property yields that value"""
+    repo = ctx.repo
+    cls = repo.cls(CFG + ".Config")
+    n = 0
+    for f in cls.methods.values():
+        if not any(norm(d) == "property" for d in f.node.decorator_list):
+            continue
+        g = f.cfg
+        for t in g.tests():
+            c = compare(t.ast)
+            if not (c and c[1] in (ast.IsNot, ast.Is) and isinstance(c[2], ast.Constant) and c[2].value is None):
+                continue
+            src = c[0]
+            expr = norm(src)
+            if isinstance(src, ast.Name):
+                vals = [norm(s.ast.value) for s in stores_to_name(f, src.id) if isinstance(s.ast, ast.Assign)]
+                expr = vals[0] if len(vals) == 1 else expr
+            if "self.settings[" not in expr or not expr.endswith(".get()"):
+                continue
+            n += 1
+            ctx.fn(f)
+            lab = "true" if c[1] is ast.IsNot else "false"
+            rets = [r for r in g.reachable([(t, lab)], follow_exc=False, stop=lambda x: x.kind == "stmt" and isinstance(x.ast, ast.Return)) if r.kind == "stmt" and isinstance(r.ast, ast.Return)]
+            # a literal result ignores what the source said; anything computed (normalisation of the stored value) is accepted
+            okk = bool(rets) and all(r.ast.value is not None and not isinstance(r.ast.value, ast.Constant) for r in rets)
+            ctx.check("C16.R6", okk, key(f, "setting-value-returned"), site(f, t),
+                      "Config.%s: when the setting holds a value the property returns `%s` instead of that value: a source that mentions the setting (e.g. `%s = True` in the "
+                      "config file) is silently turned into something else" % (f.name, norm(rets[0].ast.value) if rets and rets[0].ast.value is not None else None, f.name),
+                      "returns the stored value when set")
+    ctx.floor("C16.R6", "Config properties that test their setting for None", n, 2)
 
 
 def settings(repo):
